@@ -84,13 +84,18 @@ std::shared_ptr<ISource> EntityWithSourcesHDF5::getSource(const size_t index) co
 }
 
 void EntityWithSourcesHDF5::sources(const std::vector<Source> &sources) {
+    // look at all new sources first: an invalid one must not cost the old ones
+    std::vector<std::string> ids;
+    for (const auto &src : sources) {
+        if (block()->hasEntity(src) ) {
+            ids.push_back(src.id());
+        }
+    }
     while (sourceCount() > 0) {
         removeSource(getSource(0)->id());
     }
-    for (const auto &src : sources) {
-        if (block()->hasEntity(src) ) {
-            addSource(src.id());
-        }
+    for (const auto &id : ids) {
+        addSource(id);
     }
 }
 
